@@ -171,17 +171,36 @@ def _redirect_location(call: ast.Call, imports: Dict[str, str]) -> Optional[ast.
     raise AnalysisError(f'redirect `{pf.nsrc(call)}` without a recognisable location argument')
 
 
+_VALIDATOR_PARAM = ['next_page']  # name of the validator's first parameter, read from its definition in run()
+
+
+def _validated_arg(c: ast.Call) -> Optional[ast.expr]:
+    """the value a call of the validator validates: first positional argument, or the keyword naming the validator's first parameter"""
+    if pf.dotted(c.func) != VALIDATOR or any(isinstance(a, ast.Starred) for a in c.args) or any(k.arg is None for k in c.keywords):
+        return None
+    if c.args:
+        return c.args[0]
+    for k in c.keywords:
+        if k.arg == _VALIDATOR_PARAM[0]:
+            return k.value
+    return None
+
+
 def _is_validate(n: pf.Node, key: str) -> bool:
     for c in pf.node_calls(n):
-        if pf.dotted(c.func) == VALIDATOR and len(c.args) >= 1 and not any(isinstance(a, ast.Starred) for a in c.args) and pf.nsrc(c.args[0]) == key \
-                and all(k.arg is not None for k in c.keywords):
+        a = _validated_arg(c)
+        if a is not None and pf.nsrc(a) == key:
             return True
     return False
 
 
-def _unknown_guard(n: pf.Node, key: str) -> bool:
-    """A branch that hands the value to some other function (an unrecognised validation idiom)."""
+def _unknown_guard(n: pf.Node, key: str, validating: Optional[Set[str]] = None) -> bool:
+    """A branch that hands the value to some other function (an unrecognised validation idiom), or a call -- left in place because it could not
+    be inlined -- of a module-level helper that runs the validator on it."""
     if n.kind != 'test':
+        for c in pf.node_calls(n):
+            if validating and isinstance(c.func, ast.Name) and c.func.id in validating and any(pf.nsrc(a) == key for a in list(c.args) + [k.value for k in c.keywords]):
+                return True
         return False
     for c in pf.node_calls(n):
         if pf.dotted(c.func) == VALIDATOR:
@@ -223,10 +242,109 @@ def _escape_path(cfg: pf.CFG, starts: List[pf.Node], sinks: List[pf.Node], key: 
     return None
 
 
+def _copy_sources(e: ast.AST) -> Optional[List[ast.expr]]:
+    """the expressions one of which IS the value of e, when e only selects: `x`, `a or b`, `a and b`, `a if c else b`, `(y := x)`; else None"""
+    if isinstance(e, ast.Name):
+        return [e]
+    if isinstance(e, ast.BoolOp):
+        out: List[ast.expr] = []
+        for v in e.values:
+            sub = _copy_sources(v)
+            out += sub if sub is not None else [v]
+        return out
+    if isinstance(e, ast.IfExp):
+        out = []
+        for v in (e.body, e.orelse):
+            sub = _copy_sources(v)
+            out += sub if sub is not None else [v]
+        return out
+    return None
+
+
+def _copy_of(n: pf.Node) -> Optional[Tuple[str, List[str]]]:
+    """(target, [source locals]) when the node binds a local to (one of) other locals: `t = s`, `t = s or default`, `t = a if c else b`"""
+    a = n.ast
+    tgt = None
+    if n.kind == 'stmt' and isinstance(a, ast.Assign) and len(a.targets) == 1 and isinstance(a.targets[0], ast.Name):
+        tgt = a.targets[0].id
+    elif n.kind == 'stmt' and isinstance(a, ast.AnnAssign) and isinstance(a.target, ast.Name) and a.value is not None:
+        tgt = a.target.id
+    if tgt is None:
+        return None
+    srcs = _copy_sources(a.value)  # type: ignore[union-attr]
+    if srcs is None:
+        return None
+    return tgt, [x.id for x in srcs if isinstance(x, ast.Name)]
+
+
+def _defines(n: pf.Node) -> Set[str]:
+    """locals (re)bound at this node"""
+    out: Set[str] = set()
+    if n.kind == 'except':
+        nm = getattr(n.ast, 'name', None)
+        return {nm} if nm else set()
+    for e in pf.node_exprs(n):
+        for x in pf.walk_shallow(e):
+            if isinstance(x, ast.Name) and isinstance(x.ctx, (ast.Store, ast.Del)):
+                out.add(x.id)
+    return out
+
+
+def _validates_any(n: pf.Node, names) -> bool:
+    return any(_is_validate(n, x) for x in names)
+
+
+def _flow_escape(cfg: pf.CFG, starts: List[pf.Node], var: str, sinks: List[pf.Node], sink_name: str, blocked=None) -> Optional[List[pf.Node]]:
+    """A path from the definition `starts` of local `var` to a sink that reads `sink_name`, on which the VALUE defined there -- followed through
+    plain copies `a = b`, so that validating any holder of the value validates it -- never passed a validate call that returned normally;
+    None if there is none.  A holder that is rebound drops out; the path ends when no holder is left."""
+    sink_ids = {x.id for x in sinks}
+    start_ids = {x.id for x in starts}
+    first = frozenset([var])
+    prev: Dict[Tuple[int, frozenset], Optional[Tuple[pf.Node, frozenset]]] = {(x.id, first): None for x in starts}
+    queue: List[Tuple[pf.Node, frozenset]] = [(x, first) for x in starts]
+    while queue:
+        n, al = queue.pop(0)
+        validating = _validates_any(n, al) and n.id not in start_ids
+        for m2, lab in n.succ:
+            if validating and lab != 'exc':
+                continue  # normal continuation of a validation: the value is validated from here on
+            if blocked is not None and blocked(m2, al):
+                continue
+            if m2.id in sink_ids and sink_name in al and not _validates_any(m2, al):
+                path = [m2]
+                cur: Optional[Tuple[pf.Node, frozenset]] = (n, al)
+                while cur is not None:
+                    path.append(cur[0])
+                    cur = prev[(cur[0].id, cur[1])]
+                return list(reversed(path))
+            cp = _copy_of(m2)
+            if cp is not None and any(x in al for x in cp[1]):
+                al2 = al | {cp[0]}
+            elif m2.id in start_ids:
+                al2 = al
+            else:
+                al2 = al - _defines(m2)
+            if not al2 or (m2.id, al2) in prev:
+                continue
+            prev[(m2.id, al2)] = (n, al)
+            queue.append((m2, al2))
+    return None
+
+
+def _residual_validating(e: ast.AST, validating: Set[str]) -> Optional[ast.Call]:
+    """a call (left in place: it could not be inlined) of a module-level helper that itself runs the validator"""
+    for c in ast.walk(e):
+        if isinstance(c, ast.Call) and isinstance(c.func, ast.Name) and c.func.id in validating:
+            return c
+    return None
+
+
 def _check_sink(ctx: Ctx, m: pf.Module, qual: str, fn: pf.FuncDef, taint: Taint, rule: str, role: str, value: ast.expr, at: ast.AST,
-                propagate: Optional[List[str]] = None) -> str:
+                propagate: Optional[List[str]] = None, validating: Optional[Set[str]] = None) -> str:
     """Returns 'tainted' | 'clean' after recording the instance (clean sinks are not instances)."""
     cfg = pf.cfg(fn)
+    validating = validating or set()
     sink_nodes = cfg.node_of(at)
     ctx.need(sink_nodes, f'{m.rel}::{qual}: cannot locate `{short(pf.nsrc(at), 60)}` in the CFG')
     cons = f'{m.rel}::{qual}::{role} {short(pf.nsrc(value), 80)}'
@@ -235,42 +353,83 @@ def _check_sink(ctx: Ctx, m: pf.Module, qual: str, fn: pf.FuncDef, taint: Taint,
     if isinstance(value, ast.Name):
         name = value.id
         ctx.need(name in taint.defs or name in taint.session_names, f'{m.rel}::{qual}: `{name}` used as a redirect target has no local definition')
-        kinds = [(d, taint.of_def(d, (name,))) for d in taint.defs.get(name, [])]
         if name in taint.session_names:
             ctx.bad(rule, cons, 'the session object itself is used as a URL', m.path, at.lineno)
             return 'tainted'
-        if all(k == 'clean' for _, k in kinds):
-            return 'clean'
-        problems = []
-        undecided = []
+        problems: List[Tuple[ast.AST, List[pf.Node]]] = []
+        undecided: List[Tuple[ast.AST, List[pf.Node]]] = []
         via_params: List[str] = []
-        def_nodes: Dict[int, Set[int]] = {}
-        for d, _k in kinds:
-            if not isinstance(d, ast.arg):
-                ns = cfg.node_of(d)
-                ctx.need(ns, f'{m.rel}::{qual}: definition of `{name}` not found in the CFG')
-                def_nodes[id(d)] = {n.id for n in ns}
-        for d, k in kinds:
-            if k == 'clean':
-                continue
-            kills = set().union(*[v for kk, v in def_nodes.items() if kk != id(d)]) if def_nodes else set()
-            if isinstance(d, ast.arg):
-                starts = [cfg.entry]
-            else:
-                starts = cfg.node_of(d)
-            path = _escape_path(cfg, starts, sink_nodes, key, kills=kills)
-            if path is None:
-                continue
-            # an unrecognised guard on the path?  then we cannot decide
-            path2 = _escape_path(cfg, starts, sink_nodes, key, extra_block=lambda n: _unknown_guard(n, key), kills=kills)
-            if path2 is None:
-                undecided.append((d, path))
-            elif k == 'unknown' and isinstance(d, ast.arg) and propagate is not None:
-                via_params.append(d.arg)  # an unvalidated parameter of a helper: the obligation moves to the callers
-            elif k == 'unknown':
-                undecided.append((d, path2))
-            else:
-                problems.append((d, path2))
+        all_origins: List[Tuple[ast.AST, str, str]] = []
+
+        def unknown_guard(n2: pf.Node, al) -> bool:
+            return any(_unknown_guard(n2, x, validating) for x in al)
+
+        def origins_of(root: str) -> List[Tuple[ast.AST, str, str]]:
+            """the definitions the value of `root` can originate from, followed backwards through selections of locals (`a = b`, `a = b or c`)"""
+            out: List[Tuple[ast.AST, str, str]] = []
+            seen_vars: Set[str] = set()
+
+            def collect(var: str) -> None:
+                if var in seen_vars:
+                    return
+                seen_vars.add(var)
+                for d0 in taint.defs.get(var, []):
+                    srcs = _copy_sources(d0) if isinstance(d0, ast.expr) else None
+                    if srcs is not None:
+                        for x in srcs:
+                            if isinstance(x, ast.Name) and x.id in taint.defs and x.id not in taint.session_names:
+                                collect(x.id)
+                            elif taint.of_expr(x, (var,)) != 'clean':
+                                out.append((d0, var, taint.of_expr(x, (var,))))
+                    else:
+                        out.append((d0, var, taint.of_def(d0, (var,))))
+            collect(root)
+            return out
+
+        def analyse(root: str, sinks: List[pf.Node], depth: int) -> None:
+            for d, var, k in origins_of(root):
+                all_origins.append((d, var, k))
+                if k == 'clean':
+                    continue
+                if isinstance(d, ast.arg):
+                    starts = [cfg.entry]
+                else:
+                    starts = cfg.node_of(d)
+                    ctx.need(starts, f'{m.rel}::{qual}: definition of `{var}` not found in the CFG')
+                path = _flow_escape(cfg, starts, var, sinks, root)
+                if path is None:
+                    continue
+                # an unrecognised guard on the path?  then we cannot decide
+                path2 = _flow_escape(cfg, starts, var, sinks, root, blocked=unknown_guard)
+                if path2 is None:
+                    undecided.append((d, path))
+                elif not isinstance(d, ast.arg) and _residual_validating(d, validating) is not None:
+                    undecided.append((d, path2))  # defined by a helper that validates what it returns, but could not be inlined
+                elif k == 'unknown' and isinstance(d, ast.arg) and propagate is not None:
+                    via_params.append(d.arg)  # an unvalidated parameter of a helper: the obligation moves to the callers
+                elif k == 'unknown':
+                    undecided.append((d, path2))
+                elif isinstance(d, ast.arg) or taint.direct_sources(d.value if isinstance(d, (ast.Assign, ast.AugAssign)) else
+                                                                    (d.iter if isinstance(d, (ast.For, ast.AsyncFor, ast.comprehension)) else
+                                                                     (d.context_expr if isinstance(d, ast.withitem) else d))):
+                    problems.append((d, path2))  # read from the request / session right here and never validated on the way
+                else:
+                    # DERIVED from other locals (`target = str(next_page)`): a violation only if a client-controlled local flows into the
+                    # derivation unvalidated; a transformation of an already validated value is not decided here
+                    before = len(problems)
+                    srcs2 = sorted({x.id for x in pf.walk_shallow(d) if isinstance(x, ast.Name) and isinstance(x.ctx, ast.Load) and x.id in taint.defs
+                                    and x.id != var and taint.of_name(x.id) != 'clean'})
+                    if depth > 0:
+                        for y in srcs2:
+                            analyse(y, starts, depth - 1)
+                    if len(problems) > before:
+                        problems[before:] = [(problems[before][0], problems[before][1] + path2[1:])]
+                    else:
+                        undecided.append((d, path2))
+        analyse(name, sink_nodes, 3)
+        origins = all_origins
+        if all(k0 == 'clean' for _, _, k0 in origins):
+            return 'clean'
         if problems:
             d, path = problems[0]
             src_txt = short(pf.nsrc(d), 90)
@@ -287,13 +446,17 @@ def _check_sink(ctx: Ctx, m: pf.Module, qual: str, fn: pf.FuncDef, taint: Taint,
             d, path = undecided[0]
             raise AnalysisError(f'{m.rel}::{qual}: `{name}` reaches `{short(pf.nsrc(at), 60)}` without {VALIDATOR}; its origin/guard '
                                 f'(`{short(pf.nsrc(d), 60)}`) is not a recognised idiom - cannot decide')
-        ctx.ok(rule, cons, {'validated_value': name, 'tainted_definitions': [short(pf.nsrc(d), 80) for d, k in kinds if k != 'clean']})
+        ctx.ok(rule, cons, {'validated_value': name, 'tainted_definitions': [short(pf.nsrc(d), 80) for d, _, k in origins if k != 'clean']})
         return 'tainted'
 
     # not a plain variable
     k = taint.of_expr(value)
     if k == 'clean':
         return 'clean'
+    rv = _residual_validating(value, validating)
+    if rv is not None:
+        raise AnalysisError(f'{m.rel}::{qual}: {role} `{short(key, 60)}` is computed by `{short(pf.nsrc(rv), 50)}`, a helper that runs {VALIDATOR} itself and could not be '
+                            f'inlined - cannot decide')
     direct = taint.direct_sources(value)
     stable = all(s.split('.')[-1] in ('query', 'rel_url', 'match_info') for s in direct) and not any(
         isinstance(n, ast.Name) and taint.of_name(n.id) != 'clean' for n in pf.walk_shallow(value))
@@ -307,6 +470,45 @@ def _check_sink(ctx: Ctx, m: pf.Module, qual: str, fn: pf.FuncDef, taint: Taint,
                 f'{VALIDATOR}: e.g. next=https://evil.example/ is followed', m.path, at.lineno)
         return 'tainted'
     raise AnalysisError(f'{m.rel}::{qual}: {role} `{short(key, 60)}` is derived from client-controlled or unknown values by an expression - cannot decide')
+
+
+def _validating_helpers(m: pf.Module) -> Set[str]:
+    """module-level functions (other than the validator) that run the validator themselves, directly or through another such helper:
+    `next_page = _validated_next_page_from_query(request)` hands back a value that has already been validated"""
+    funcs = {f.name: f for f in m.tree.body if isinstance(f, (ast.FunctionDef, ast.AsyncFunctionDef)) and f.name != VALIDATOR}
+    out: Set[str] = set()
+    changed = True
+    while changed:
+        changed = False
+        for nm, f in funcs.items():
+            if nm in out:
+                continue
+            for c in pf.calls_in(f, False):
+                d = pf.dotted(c.func) or ''
+                if d == VALIDATOR or d in out:
+                    out.add(nm)
+                    changed = True
+                    break
+    return out
+
+
+_inlined_cache: Dict[Tuple[int, str], Tuple[pf.Module, pf.FuncDef]] = {}
+
+
+def _with_validating_helpers_inlined(m: pf.Module, qual: str, fn: pf.FuncDef, validating: Set[str]) -> Tuple[pf.Module, pf.FuncDef]:
+    """The function with the statement-level calls of validating helpers replaced by their bodies (engines.inline): the validation they
+    perform then lies on the caller's own paths.  Only module-level functions; anything that cannot be inlined stays a call."""
+    if not validating or '.' in qual or not any(fn is f for f in m.tree.body):
+        return m, fn
+    if not any(isinstance(c.func, ast.Name) and c.func.id in validating for c in pf.calls_in(fn, False)):
+        return m, fn
+    key = (id(m), qual)
+    if key not in _inlined_cache:
+        from engines import inline
+        others = tuple(f.name for f in m.tree.body if isinstance(f, (ast.FunctionDef, ast.AsyncFunctionDef)) and f.name not in validating)
+        m2, _il = inline.inline_functions(m, qual, exclude=others)
+        _inlined_cache[key] = (m2, m2.func(qual))
+    return _inlined_cache[key]
 
 
 def _location_values(node: ast.AST) -> List[ast.expr]:
@@ -336,7 +538,8 @@ def _stmt_of(m: pf.Module, fn: pf.FuncDef, node: ast.AST) -> ast.AST:
 
 
 def _scan_function(ctx: Ctx, m: pf.Module, qual: str, fn: pf.FuncDef, imports: Dict[str, str],
-                   derived: Optional[Dict[str, List[Tuple[int, str]]]] = None, found: Optional[Dict[str, List[Tuple[int, str]]]] = None) -> Tuple[int, int]:
+                   derived: Optional[Dict[str, List[Tuple[int, str]]]] = None, found: Optional[Dict[str, List[Tuple[int, str]]]] = None,
+                   validating: Optional[Set[str]] = None) -> Tuple[int, int]:
     """derived: helper name -> [(parameter position, parameter name)] whose value reaches a redirect unvalidated inside the helper (calls of those
     helpers are sinks here); found: filled with the helpers of that kind discovered in this function."""
     taint = Taint(fn)
@@ -345,7 +548,7 @@ def _scan_function(ctx: Ctx, m: pf.Module, qual: str, fn: pf.FuncDef, imports: D
 
     def sink(rule: str, role: str, value: ast.expr, at: ast.AST) -> str:
         prop: List[str] = []
-        r = _check_sink(ctx, m, qual, fn, taint, rule, role, value, at, prop if '.' not in qual else None)
+        r = _check_sink(ctx, m, qual, fn, taint, rule, role, value, at, prop if '.' not in qual else None, validating)
         if r == 'param' and found is not None:
             for name in prop:
                 if name in pnames:
@@ -528,6 +731,105 @@ def _boolify(e: ast.AST) -> ast.AST:
     return e
 
 
+def _names_outside(fn: pf.FuncDef, inside: ast.AST, name: str) -> bool:
+    """is the local `name` mentioned in fn outside the subtree `inside`?"""
+    within = {id(x) for x in ast.walk(inside)}
+    return any(isinstance(x, ast.Name) and x.id == name and id(x) not in within for x in ast.walk(fn))
+
+
+def _loops_to_comprehensions(fn: pf.FuncDef) -> int:
+    """In place, on the validator copy: the loop spellings of a comprehension / of any() are rewritten to the expression they compute, so that
+    the decision list stays loop-free:
+        acc = [] ; for v in IT: (t = e)* ; acc.append(E)          ==>  acc = [E[t := e] for v in IT]          (set() / .add likewise)
+        for v in IT: if C: return                                   ==>  if any(C for v in IT): return
+        for v in IT: if C: break  else: <stmts>                     ==>  if not any(C for v in IT): <stmts>
+    Only when the loop variable and the temporaries are not used outside the loop and nothing else touches the accumulator."""
+    import copy
+    n_rewritten = 0
+
+    def subst(e: ast.expr, env: Dict[str, ast.expr]) -> ast.expr:
+        class _S(ast.NodeTransformer):
+            def visit_Name(self, node: ast.Name):
+                if isinstance(node.ctx, ast.Load) and node.id in env:
+                    return copy.deepcopy(env[node.id])
+                return node
+        return _S().visit(copy.deepcopy(e))
+
+    def temps(stmts: List[ast.stmt], loop: ast.For) -> Optional[Dict[str, ast.expr]]:
+        env: Dict[str, ast.expr] = {}
+        for st in stmts:
+            tgt = st.targets[0] if isinstance(st, ast.Assign) and len(st.targets) == 1 else (st.target if isinstance(st, ast.AnnAssign) else None)
+            val = getattr(st, 'value', None)
+            if not isinstance(tgt, ast.Name) or val is None or isinstance(val, (ast.Await, ast.Yield, ast.YieldFrom)) or tgt.id in env:
+                return None
+            if _names_outside(fn, loop, tgt.id):
+                return None
+            env[tgt.id] = subst(val, env)
+        return env
+
+    def clean(loop: ast.For) -> bool:
+        return isinstance(loop.target, ast.Name) and not _names_outside(fn, loop, loop.target.id) \
+            and not any(isinstance(x, (ast.Await, ast.Yield, ast.YieldFrom, ast.Continue, ast.For, ast.While, ast.Try, ast.With)) for b in loop.body for x in ast.walk(b))
+
+    def block(stmts: List[ast.stmt]) -> List[ast.stmt]:
+        nonlocal n_rewritten
+        out: List[ast.stmt] = []
+        for st in stmts:
+            for fld in ('body', 'orelse'):
+                b = getattr(st, fld, None)
+                if isinstance(b, list) and b and isinstance(b[0], ast.stmt) and not isinstance(st, (ast.FunctionDef, ast.AsyncFunctionDef, ast.ClassDef, ast.For)):
+                    setattr(st, fld, block(b))
+            if not (isinstance(st, ast.For) and st.body and clean(st)):
+                out.append(st)
+                continue
+            *pre, last = st.body
+            gen = ast.comprehension(target=copy.deepcopy(st.target), iter=copy.deepcopy(st.iter), ifs=[], is_async=0)
+            # accumulator
+            if not st.orelse and isinstance(last, ast.Expr) and isinstance(last.value, ast.Call) and isinstance(last.value.func, ast.Attribute) \
+                    and last.value.func.attr in ('append', 'add') and isinstance(last.value.func.value, ast.Name) and len(last.value.args) == 1 and not last.value.keywords:
+                acc = last.value.func.value.id
+                env = temps(pre, st)
+                inits = [(i2, x) for i2, x in enumerate(out) if isinstance(x, (ast.Assign, ast.AnnAssign)) and x.value is not None
+                         and any(isinstance(t, ast.Name) and t.id == acc for t in (x.targets if isinstance(x, ast.Assign) else [x.target]))]
+                if env is not None and len(inits) == 1 and not any(isinstance(x, ast.Break) for b in st.body for x in ast.walk(b)):
+                    i2, init = inits[0]
+                    iv = init.value
+                    is_list = (isinstance(iv, ast.List) and not iv.elts) or (isinstance(iv, ast.Call) and pf.dotted(iv.func) == 'list' and not iv.args and not iv.keywords)
+                    is_set = isinstance(iv, ast.Call) and pf.dotted(iv.func) == 'set' and not iv.args and not iv.keywords
+                    stores = [x for x in ast.walk(fn) if isinstance(x, ast.Name) and x.id == acc and isinstance(x.ctx, (ast.Store, ast.Del))]
+                    between = [x for x in out[i2 + 1:] for y in ast.walk(x) if isinstance(y, ast.Name) and y.id == acc]
+                    in_loop_other = [y for b in st.body for y in ast.walk(b) if isinstance(y, ast.Name) and y.id == acc and y is not last.value.func.value]
+                    if ((is_list and last.value.func.attr == 'append') or (is_set and last.value.func.attr == 'add')) and len(stores) == 1 and not between and not in_loop_other:
+                        elt = subst(last.value.args[0], env)
+                        comp: ast.expr = ast.ListComp(elt=elt, generators=[gen]) if is_list else ast.SetComp(elt=elt, generators=[gen])
+                        new = ast.Assign(targets=[ast.Name(id=acc, ctx=ast.Store())], value=comp, lineno=st.lineno)
+                        del out[i2]
+                        out.append(ast.fix_missing_locations(ast.copy_location(new, st)))
+                        n_rewritten += 1
+                        continue
+            # search loop: `if C: return` / `if C: break ... else:`
+            if isinstance(last, ast.If) and not last.orelse and len(last.body) == 1:
+                env = temps(pre, st)
+                act = last.body[0]
+                if env is not None:
+                    test = ast.Call(func=ast.Name(id='any', ctx=ast.Load()), args=[ast.GeneratorExp(elt=subst(last.test, env), generators=[gen])], keywords=[])
+                    if isinstance(act, ast.Return) and not st.orelse:
+                        new_if = ast.If(test=test, body=[act], orelse=[])
+                        out.append(ast.fix_missing_locations(ast.copy_location(new_if, st)))
+                        n_rewritten += 1
+                        continue
+                    if isinstance(act, ast.Break) and st.orelse:
+                        new_if = ast.If(test=ast.UnaryOp(op=ast.Not(), operand=test), body=block(list(st.orelse)), orelse=[])
+                        out.append(ast.fix_missing_locations(ast.copy_location(new_if, st)))
+                        n_rewritten += 1
+                        continue
+            out.append(st)
+        return out
+    fn.body = block(fn.body)
+    ast.fix_missing_locations(fn)
+    return n_rewritten
+
+
 def _prepare_validator(ctx: Ctx, m: pf.Module) -> Tuple[pf.FuncDef, List[str]]:
     """A copy of the validator with its module-level helpers seen through: statement-level calls by engines.inline, calls in expression
     position (a host-extracting helper, a predicate) by substitution of the helper's returned expression; locals of tests expanded."""
@@ -535,6 +837,9 @@ def _prepare_validator(ctx: Ctx, m: pf.Module) -> Tuple[pf.FuncDef, List[str]]:
     helpers = _helper_defs(m)
     m2, il = inline.inline_functions(m, VALIDATOR)
     fn = m2.func(VALIDATOR)
+    nloops = _loops_to_comprehensions(fn)
+    if nloops:
+        ctx.extra_cov['validator_loops_read_as_comprehensions'] = nloops
     xi = _ExprInliner(helpers, (VALIDATOR,))
     fn.body = [xi.visit(st) for st in fn.body]
     ast.fix_missing_locations(fn)
@@ -1500,26 +1805,56 @@ def _check_validator(ctx: Ctx, m: pf.Module, imports: Dict[str, str]) -> int:
     return rows
 
 
+def _url_template(fn: pf.FuncDef, e: ast.AST, depth: int = 4) -> Optional[str]:
+    """The returned string with every computed part replaced by \\x00: f-strings, `a + b`, constants, and locals holding such pieces
+    (one definition) are spelled out; None when the expression is none of these."""
+    if isinstance(e, ast.Constant) and isinstance(e.value, str):
+        return e.value
+    if isinstance(e, ast.JoinedStr):
+        def hole(h: ast.expr) -> str:
+            if isinstance(h, ast.Name) and depth > 0:
+                d = pf.single_def(fn, h.id)
+                if isinstance(d, (ast.JoinedStr, ast.BinOp)) or (isinstance(d, ast.Constant) and isinstance(d.value, str)):
+                    t = _url_template(fn, d, depth - 1)
+                    if t is not None:
+                        return t
+            return '\x00'
+        return pf.fstring_template(e, hole)
+    if isinstance(e, ast.BinOp) and isinstance(e.op, ast.Add):
+        a, b = _url_template(fn, e.left, depth), _url_template(fn, e.right, depth)
+        if a is None and b is None:
+            return None
+        return (a if a is not None else '\x00') + (b if b is not None else '\x00')
+    if isinstance(e, ast.Name) and depth > 0:
+        d = pf.single_def(fn, e.id)
+        if isinstance(d, ast.expr):
+            return _url_template(fn, d, depth - 1)
+    return None
+
+
 def _check_external_url(ctx: Ctx) -> None:
     md = pf.load(FD)
     fn = md.func('DeployConfig.external_url')
     rets = [n for n in pf.walk_shallow(fn) if isinstance(n, ast.Return)]
     ctx.need(rets, 'DeployConfig.external_url has no return')
+    nth = 0
     for r in rets:
         ctx.need(r.value is not None, 'DeployConfig.external_url: bare return')
-        holes: List[str] = []
-
-        def hole(e: ast.expr) -> str:
-            holes.append(pf.nsrc(e))
-            return '\x00'
-        tpl = pf.fstring_template(r.value, hole)
-        ctx.need(tpl is not None, f'DeployConfig.external_url: return `{short(pf.nsrc(r.value), 60)}` is not an f-string')
-        cons = f'{FD}::DeployConfig.external_url::return {short(pf.nsrc(r.value), 70)}'
-        i = tpl.find('://')
-        ok = i >= 1 and '/' not in tpl[:i] and len(tpl) > i + 3 and tpl[i + 3] not in '/?#'
-        ctx.check(ok, 'R4', cons, 'the returned URL has no `scheme://authority` prefix, so its netloc is empty and the validator\'s list of valid '
-                  'netlocs contains \'\': next=/\\evil.example (netloc \'\') is accepted and browsers follow it to evil.example', md.path, r.lineno,
-                  detail={'template': tpl.replace('\x00', '{}')})
+        # a returned local with several definitions (`url = ...` per branch): every definition is a returned value
+        vals: List[ast.AST] = [r.value]  # type: ignore[list-item]
+        if isinstance(r.value, ast.Name) and pf.single_def(fn, r.value.id) is None:
+            vals = list(pf.assignments(fn).get(r.value.id, []))
+            ctx.need(vals and all(isinstance(v, ast.expr) for v in vals), f'DeployConfig.external_url: `{r.value.id}` is not defined by plain assignments')
+        for v in vals:
+            nth += 1
+            tpl = _url_template(fn, v)
+            ctx.need(tpl is not None, f'DeployConfig.external_url: return `{short(pf.nsrc(v), 60)}` is not an f-string / concatenation of string pieces')
+            cons = f'{FD}::DeployConfig.external_url::returned URL #{nth}'
+            i = tpl.find('://')  # type: ignore[union-attr]
+            ok = i >= 1 and '/' not in tpl[:i] and len(tpl) > i + 3 and tpl[i + 3] not in '/?#'  # type: ignore[index,arg-type]
+            ctx.check(ok, 'R4', cons, f'the returned URL `{short(pf.nsrc(v), 70)}` has no `scheme://authority` prefix, so its netloc is empty and the validator\'s list of valid '
+                      'netlocs contains \'\': next=/\\evil.example (netloc \'\') is accepted and browsers follow it to evil.example', md.path, r.lineno,
+                      detail={'template': tpl.replace('\x00', '{}')})  # type: ignore[union-attr]
 
 
 def run(ctx: Ctx) -> None:
@@ -1542,6 +1877,9 @@ def run(ctx: Ctx) -> None:
     m = pf.load(F)
     imports = m.imports()
     ctx.need(m.has_func(VALIDATOR), f'anchor vanished: {F}::{VALIDATOR}')
+    vargs = m.func(VALIDATOR).args
+    ctx.need(bool(vargs.posonlyargs + vargs.args), f'{VALIDATOR} takes no positional parameter')
+    _VALIDATOR_PARAM[0] = (vargs.posonlyargs + vargs.args)[0].arg
     # positive control for the sink shapes that do not occur on today's tree
     ctl = ast.parse("resp = web.Response(status=302, headers={'Location': u})\nresp.headers['location'] = u\nresp.headers.add('Location', u)\n")
     ctx.need(sum(len(_location_values(n)) for n in ast.walk(ctl)) == 3, 'internal: Location-header sink recognition failed its positive control')
@@ -1562,13 +1900,17 @@ def run(ctx: Ctx) -> None:
                 ctx.unit('functions', len(mm.functions()))
                 continue
         derived: Dict[str, List[Tuple[int, str]]] = {}
+        validating = _validating_helpers(mm)
+        if validating:
+            ctx.extra_cov.setdefault('validating_helpers', {})[rel] = sorted(validating)
         for _round in range(4):
             found: Dict[str, List[Tuple[int, str]]] = {}
             a_sum = b_sum = 0
             before = (len(ctx.instances), len(ctx.findings))
             try:
                 for qual, fn in mm.functions():
-                    a, b = _scan_function(ctx, mm, qual, fn, imps, derived, found)
+                    m_use, fn_use = _with_validating_helpers_inlined(mm, qual, fn, validating)
+                    a, b = _scan_function(ctx, m_use, qual, fn_use, imps, derived, found, validating)
                     a_sum += a
                     b_sum += b
             except AnalysisError as e:
